@@ -55,6 +55,11 @@ namespace hgvc
     };
 
     template <typename S>
+    struct is_dict_shape : std::false_type {};
+    template <typename K, typename V>
+    struct is_dict_shape<TSD<K, V>> : std::true_type {};
+
+    template <typename S>
     struct CGraph1
     {
         static constexpr auto name = "c_graph1";
@@ -65,6 +70,13 @@ namespace hgvc
             wire<CProbe<S>>(w, Int{2}, Int{g_scn->late}, Int{1}, src);
             wire<CShadow<S>>(w, Int{4}, src);
             wire<stdlib::dense_record_impl>(w, src, Str{"r1"});
+            if constexpr (is_dict_shape<S>::value)
+            {
+                // the dictionary's key set (keys_ : a zero-copy TSS projection with its own modified / last-modified-time),
+                // read by a probe of its own (id 5) in every cycle
+                auto keys = wire<stdlib::keys_>(w, src).template as<TSS<Int>>();
+                wire<CProbe<TSS<Int>>>(w, Int{5}, Int{1}, Int{1}, keys);
+            }
         }
     };
 
